@@ -21,6 +21,7 @@ type genOpts struct {
 	listInList      bool
 	floats          bool
 	everyItemScalar bool // every list item contains at least one scalar
+	pointerRoute    bool // documents whose modifications go through the property-path route: plain number kinds, empty names only inside a path
 }
 
 func defaultOpts() genOpts {
